@@ -42,6 +42,14 @@ for meta in "$VERIF"/selftest/mutants/*.json; do
     jobs+=("$meta $P")
   done
 done
+# independent seeded changes (sub-agents) are part of the corpus
+for meta in "$VERIF"/seeded/*/meta.json; do
+  [ -e "$meta" ] || continue
+  P=$(python3 -c "import json,sys; print(json.load(open(sys.argv[1]))['breaks_property'])" "$meta")
+  if [ -n "$ONLY" ] && [ "$ONLY" != "$P" ]; then continue; fi
+  d=$(dirname "$meta"); cp "$d/patch.diff" "$WORK/seed_$(basename "$d").patch"; echo "{\"properties\":[\"$P\"]}" > "$WORK/seed_$(basename "$d").json"
+  jobs+=("$WORK/seed_$(basename "$d").json $P")
+done
 printf '%s\n' "${jobs[@]}" | xargs -P "$PAR" -L 1 bash -c 'one "$0" "$1"' > "$WORK/log" 2>&1
 cat "$WORK/log"
 ran=$(grep -c "^SELFTEST \(ok\|MISSED\)" "$WORK/log")
